@@ -138,8 +138,13 @@ Definition C13_statement : Prop :=
   (forall e s, has_expr s e -> exists v, ieval_expr e s = (Ok v, s)) /\
   (* evaluating any side-effect free node of any rule never drops a remembered node *)
   (forall e s r s', pure_expr mutating e = true -> ieval_expr e s = (r, s') -> keeps s s') /\
-  (* an assignment drops only nodes whose snapshot contains the assigned variable's snapshot *)
-  (forall s x a, has_atom s a -> containsb (atom_snapshot a) (var_snapshot x) = false -> has_atom (reset_variable s x) a) /\
+  (* an assignment drops only nodes whose snapshot contains the snapshot of the assigned variable or - for a slice element
+     or map entry - of an element variable of the same container whose selector may denote the same element; two
+     different literal selectors never do *)
+  (forall s x a, has_atom s a ->
+     (forall v, In v (reset_set (vars_rules rules) x) -> containsb (atom_snapshot a) (var_snapshot v) = false) ->
+     has_atom (reset_assigned (vars_rules rules) s x) a) /\
+  (forall c s1 s2, lit_sel s1 = true -> lit_sel s2 = true -> may_alias (VSel c s1) (VSel c s2) = false) /\
   (* Forget / Changed drop only nodes that name the argument *)
   (forall s n a, has_atom s a ->
      (forall x, In x (vars_rules rules) -> var_text x = n -> containsb (atom_snapshot a) (var_snapshot x) = false) ->
@@ -150,7 +155,7 @@ Theorem C13_proved : C13_statement.
 Proof.
   split; [apply method_result_remembered|]. split; [apply field_read_remembered|].
   split; [apply memo_hit_atom_no_call|]. split; [apply memo_hit_expr_no_call|].
-  split; [|split; [apply reset_variable_keeps_atom|apply reset_name_keeps_atom]].
+  split; [|split; [apply reset_assigned_keeps_atom|split; [apply literals_do_not_alias|apply reset_name_keeps_atom]]].
   intros e s r s' Hp H. destruct (eval_keeps (vars_rules rules) meth panics_inside mutating) as (A & _). exact (A e Hp s r s' H).
 Qed.
 
